@@ -200,7 +200,12 @@ func OpenWithHooks(path string, hooks MultiFileAppendableHooks, opts *Options) (
 		return nil, err
 	}
 
-	fileSize, _ := appendable.NewMetadata(currApp.Metadata()).GetInt(metaFileSize)
+	fileSize, ok := appendable.NewMetadata(currApp.Metadata()).GetInt(metaFileSize)
+	if !ok || fileSize <= 0 {
+		// offsets are divided by the chunk size read from the metadata of the current chunk
+		currApp.Close()
+		return nil, fmt.Errorf("%w: invalid file size in metadata", singleapp.ErrCorruptedMetadata)
+	}
 
 	pCtx, pCancel := context.WithCancel(context.Background())
 	return &MultiFileAppendable{
